@@ -75,6 +75,11 @@ def inline_locals(expr, stmts, depth=6):
         for x in ast.walk(n):
             if isinstance(x, ast.Assign) and len(x.targets) == 1 and isinstance(x.targets[0], ast.Name):
                 defs[x.targets[0].id] = None if x.targets[0].id in defs else x.value
+            elif isinstance(x, ast.Assign) and len(x.targets) == 1 and isinstance(x.targets[0], (ast.Tuple, ast.List)) and \
+                    isinstance(x.value, (ast.Tuple, ast.List)) and len(x.targets[0].elts) == len(x.value.elts):
+                # a, b = X, Y
+                for a, b in zip(x.targets[0].elts, x.value.elts):
+                    if isinstance(a, ast.Name): defs[a.id] = None if a.id in defs else b
 
     def go(e, d):
         class R(ast.NodeTransformer):
